@@ -46,10 +46,13 @@ func formatByName(n string) *Format {
 
 func runCase(f *Format, c *Case) {
 	c.Format = f.Name
-	c.Path = f.Path
+	if c.Path == "" {
+		c.Path = f.Path
+	}
 	c.BytesB64 = b64(c.data)
 	c.Text = preview(c.data)
-	c.Observed = runExtract(f.NewExtractor(), f.Path, c.data, f.Sorted)
+	c.CoqClaim, c.CoqExtra = c.coqClaim, c.coqExtra
+	c.Observed = runExtract(f.NewExtractor(), c.Path, c.data, f.Sorted)
 }
 
 func genericMal(f *Format) func(r *rand.Rand, seed *Case) *Case {
@@ -60,7 +63,7 @@ func genericMal(f *Format) func(r *rand.Rand, seed *Case) *Case {
 			data, h = mutateBytes(r, data)
 			how += "+" + h
 		}
-		return &Case{Stream: "malformed", Tags: []string{how}, data: data, coqClaim: "None"}
+		return &Case{Stream: "malformed", Tags: []string{how}, data: data, coqClaim: "None", Path: seed.Path, coqExtra: seed.coqExtra}
 	}
 }
 
@@ -151,6 +154,7 @@ func doReplay(path string) {
 		Case struct {
 			Format   string `json:"format"`
 			BytesB64 string `json:"bytes_b64"`
+			Path     string `json:"path"`
 			CoqClaim string `json:"coq_claim"`
 			CoqExtra string `json:"coq_extra"`
 		} `json:"case"`
@@ -167,7 +171,7 @@ func doReplay(path string) {
 	if err != nil {
 		panic(err)
 	}
-	c := &Case{Stream: "replay", data: data, coqClaim: wrap.Case.CoqClaim, coqExtra: wrap.Case.CoqExtra}
+	c := &Case{Stream: "replay", data: data, coqClaim: wrap.Case.CoqClaim, coqExtra: wrap.Case.CoqExtra, Path: wrap.Case.Path}
 	if c.coqClaim == "" {
 		c.coqClaim = "None"
 	}
